@@ -45,6 +45,9 @@
 (*                        0) although the KEY index ignores them           *)
 (*   "ZeroTimeOnTimeIndex"     records without the index's timestamp are   *)
 (*                        returned although they are not in that index     *)
+(*   "RawBodyIndexed"     a msgpack body without the SDK's 2-byte magic    *)
+(*                        prefix is invisible to the evaluator but indexed *)
+(*                        by the bucket                                    *)
 (*                                                                         *)
 (* Numbers: ints as themselves, floats in tenths (55 = 5.5), times in      *)
 (* seconds, metadata timestamps and time windows as small ranks (0 = not   *)
@@ -53,7 +56,7 @@
 EXTENDS Integers, Sequences, FiniteSets, TLC
 
 AllDevs == {"FloatTruncScan", "TimeFieldScan", "WildcardCmpKinds", "PageAfterFilter", "WildcardLenPlanned",
-            "IndexedLegLabelDropped", "TimeWindowOnKeyIndex", "ZeroTimeOnTimeIndex"}
+            "IndexedLegLabelDropped", "TimeWindowOnKeyIndex", "ZeroTimeOnTimeIndex", "RawBodyIndexed"}
 
 -----------------------------------------------------------------------------
 (* Values.  One record shape for every value so that TLC can compare them:  *)
@@ -205,8 +208,9 @@ EvalLegBody(body, l, dv) ==
       [] l.op = "EQ"     -> Eq(fv, l.cv, dv)
       [] OTHER           -> fv.k # "nil" /\ TypedCmp(fv, l.op, l.cv)
 
-(* Documents: [key, kr (rank of the key in string order), bk ("map": msgpack body with fields a, b; *)
-(* "int": the treasure holds a plain integer, no body), a, b, c, u, e (created/updated/expires rank)] *)
+(* Documents: [key, kr (rank of the key in string order), bk ("map": msgpack body with fields a, b;  *)
+(* "raw": the same body without the magic prefix; "int": the treasure holds a plain integer, no body), *)
+(* a, b, c, u, e (created/updated/expires rank)]                                                      *)
 Body(d) == VMap(<<Named("a", d.a), Named("b", d.b)>>)
 EvalLeg(d, l, dv) == IF d.bk # "map" THEN l.op = "EMPTY" ELSE EvalLegBody(Body(d), l, dv)
 
@@ -257,8 +261,8 @@ PlanAnd(g, dv) ==
 Plan(g, dv) == IF IsEmptyGroup(g) THEN Bypass ELSE IF g.logic = "AND" THEN PlanAnd(g, dv) ELSE PlanOr(g, dv)
 
 \* bucket lookups use the canonical rule on the literal dotted path (LookupEqual / LookupIn)
-HintMatch(d, h) ==
-  /\ d.bk = "map"
+HintMatch(d, h, dv) ==
+  /\ d.bk = "map" \/ (d.bk = "raw" /\ "RawBodyIndexed" \in dv)
   /\ LET c == Canon(BucketExt(Body(d), h.p, 1)) IN
      IF h.op = "EQ" THEN CanonEq(c, Canon(h.cv)) ELSE \E j \in DOMAIN h.in : CanonEq(c, Canon(h.in[j]))
 
@@ -301,7 +305,7 @@ BucketAnswers(C, q, dv) ==
   IF ~UsesBucket(q, dv) THEN ScanAnswers(C, q, dv)
   ELSE
     LET pl == Plan(q.f, dv)
-        cand == {d \in C : \E i \in DOMAIN pl.hints : HintMatch(d, pl.hints[i])}
+        cand == {d \in C : \E i \in DOMAIN pl.hints : HintMatch(d, pl.hints[i], dv)}
         kept == IF q.idx = "key"
                   THEN IF "TimeWindowOnKeyIndex" \in dv THEN {d \in cand : InWindow(0, q)} ELSE cand
                   ELSE {d \in cand : InWindow(TimeOf(d, q.idx), q)
